@@ -22,6 +22,7 @@ import (
 type sym struct {
 	name  string
 	build func(p *rig.Peer) []byte
+	local string // "logout" / "stop": a local call instead of an inbound message
 }
 
 func alphabet(role rig.Role) []sym {
@@ -40,12 +41,14 @@ func alphabet(role rig.Role) []sym {
 		if strings.HasPrefix(s.Name, "Resend") {
 			continue
 		}
-		out = append(out, sym{s.Name, func(p *rig.Peer) []byte { return s.Build(p, [2]int{5, 60}) }})
+		out = append(out, sym{name: s.Name, build: func(p *rig.Peer) []byte { return s.Build(p, [2]int{5, 60}) }})
 	}
 	for _, be := range [][2]int{{1, 0}, {1, 1}, {1, 3}, {2, 5}, {0, 0}, {3, 2}, {1, 9}, {5, 5}} {
 		be := be
-		out = append(out, sym{fmt.Sprintf("Resend(%d,%d)", be[0], be[1]), func(p *rig.Peer) []byte { return p.Resend(be[0], be[1]) }})
+		out = append(out, sym{name: fmt.Sprintf("Resend(%d,%d)", be[0], be[1]), build: func(p *rig.Peer) []byte { return p.Resend(be[0], be[1]) }})
 	}
+	// the application may shut the session down before any peer logged on (the Logout this emits is allowed)
+	out = append(out, sym{name: "LocalLogout", local: "logout"}, sym{name: "LocalStop", local: "stop"})
 	return out
 }
 
@@ -64,7 +67,7 @@ var allowed = map[string]bool{"A": true, "5": true, "3": true}
 
 func main() {
 	c := vk.Init("C07")
-	c.Rule("histories that contain no acceptable Logon (refused and damaged Logons, Heartbeat, TestRequest, Logout, application, unknown types, ResendRequests over 8 ranges incl. e=0, b>e, b=0, beyond the stored range), both roles, with an empty message store and with a store preloaded through the public Save/SetSeqNum API with 5 messages of an earlier session: EXHAUSTIVE up to length 2 (quick) / 3 (thorough) plus random histories up to length 12; plus real-time idle scenarios (2.6 s of silence on an acceptor before any Logon, after a Logon with an out-of-range interval, after a Logon the application's callback refused; an initiator with N=1 whose Logon is never answered). Oracle: MsgType of every message on Outgoing() must be A, 5 or 3. distinct = (role, store, sequence); non-trivial = at least one message was emitted or a ResendRequest was in the history")
+	c.Rule("histories that contain no acceptable Logon (refused and damaged Logons, Heartbeat, TestRequest, Logout, application, unknown types, ResendRequests over 8 ranges incl. e=0, b>e, b=0, beyond the stored range, and the local calls Logout() and Stop() before any logon), both roles, with an empty message store and with a store preloaded through the public Save/SetSeqNum API with 5 messages of an earlier session: EXHAUSTIVE up to length 2 (quick) / 3 (thorough) plus random histories up to length 12; plus real-time idle scenarios (2.6 s of silence on an acceptor before any Logon, after a Logon with an out-of-range interval, after a Logon the application's callback refused; an initiator with N=1 whose Logon is never answered). Oracle: MsgType of every message on Outgoing() must be A, 5 or 3. distinct = (role, store, sequence); non-trivial = at least one message was emitted or a ResendRequest was in the history")
 	c.Assume("the application itself sends nothing before logon (the statement is about what the session transmits on its own)")
 	maxLen := c.Pick(2, 3)
 	nRandom := c.Pick(600, 20000)
@@ -120,7 +123,7 @@ func main() {
 		if j.preload {
 			preload(st, 5)
 		}
-		r, err := rig.NewStepRig(rig.StepCfg{Role: j.role, HeartBtInt: 10, Limits: &session.IntLimits{Min: 5, Max: 60}, Counter: st, Messages: st,
+		r, err := rig.NewStepRig(rig.StepCfg{Role: j.role, HeartBtInt: 10, Limits: &session.IntLimits{Min: 5, Max: 60}, Counter: st, Messages: st, CloseTimeout: time.Minute,
 			OnLogon: func(ls *session.LogonSettings) error {
 				if !rig.Approve(ls.Username, ls.Password) {
 					return fmt.Errorf("refused")
@@ -135,11 +138,24 @@ func main() {
 		p := rig.NewPeer()
 		emitted := 0
 		hasResend := false
+		stopped := false
 		for k, s := range j.hist {
 			if strings.HasPrefix(al[s].name, "Resend") {
 				hasResend = true
 			}
-			res := r.Inbound(al[s].build(p))
+			var res rig.StepResult
+			switch al[s].local {
+			case "logout":
+				res = r.Do(func() error { return r.S.Logout() })
+			case "stop":
+				if stopped {
+					continue // Stop is called once
+				}
+				stopped = true
+				res = r.Do(func() error { return r.S.Stop() })
+			default:
+				res = r.Inbound(al[s].build(p))
+			}
 			if res.TimedOut {
 				c.Inconclusive("watchdog in [" + desc + "]")
 				return
